@@ -102,6 +102,18 @@ CLAIMS = {
         note="Not decided: bit-for-bit equality across worker counts, physicality of noise-model outputs, the depolarising mixing "
              "proportion (numerical).",
         technique=TECH + "seed-sink / stream-kind dataflow with call-site joins, loop-invariance, slot conformance, sibling agreement"),
+    "C20": dict(
+        text="Decides the accept language itself, as long as the validators stay inside the loop-free guard-and-raise fragment: (V5) the "
+             "order validator's guards are abstracted to predicates over kind sequences and enumerated over all 1365 sequences up to "
+             "length 5 against an independent statement of the grammar; the item validator's guards cover tuple/arity/types/kind/range in "
+             "a safe order; (V6) each tomography validator's position/index/length pins, combined with the experiment's rules and the "
+             "kinds its Experiment is built with, accept exactly the class's own shape; (V1) raise/catch exhaustiveness and definite "
+             "assignment of handler reads; (V2) validate-before-store in the constructor and five setters; (V3) kind tables; (V4) None "
+             "guard and reverse order in calc_prob_dist.",
+        note="Not decided: executability of accepted schedules and normalisation of their distributions (numerical). Outside the "
+             "guard-and-raise fragment the rule answers UNDECIDED (exit 2).",
+        technique=TECH + "predicate extraction from guard chains with exhaustive enumeration of the abstract input language, CFG "
+                         "exception edges with definite assignment, dominance (validate-before-store), table agreement"),
 }
 
 NOT_APPLICABLE = {
